@@ -105,7 +105,8 @@ def run_task(task):
         return abort.run_task(task)
     if t in ('s4', 's4enum'):
         from scenarios import framing
-        return framing.run_task(task)
+        from harness import isolate
+        return isolate.call(framing.run_task, task, timeout=500.0)
     if t == 'vanish':
         from scenarios import abort
         return abort.run_vanish(task)
@@ -128,31 +129,24 @@ def run_task(task):
 # ---------------------------------------------------------------------------------------------
 
 def run_plan(plan, prop):
-    """Run one explicit plan, evaluate the oracles of `prop`.  Returns list of finding dicts
-    and a summary of the run."""
+    """Run one explicit plan (in an isolated child), evaluate the oracles of `prop`.  Returns list
+    of finding dicts and a summary of the run."""
+    from harness import isolate
     fam = plan.get('family', 'S1')
-    if fam in ('S1',):
-        from scenarios import s1, session
-        from sim import parserec
-        parserec.reset()
-        run = session.run_session(plan['scenario'], plan['sched'])
-        an, _ = s1.evaluate_run(run, (prop,), None)
-        fs = [s1.finding_record(f, plan['scenario'], plan['sched'], run) for f in an.findings
-              if f.prop == prop]
+    if fam == 'S1':
+        fs, summary, log1 = isolate.call(_exec_plan_s1, plan['scenario'], plan['sched'], prop)
         if plan.get('compare_with') is not None and prop == 'C08':
-            run2 = session.run_session(plan['scenario'], plan['compare_with'])
+            _, _, log2 = isolate.call(_exec_plan_s1, plan['scenario'], plan['compare_with'],
+                                      prop)
             try:
-                same = json.loads(run.log_text) == json.loads(run2.log_text)
+                same = json.loads(log1) == json.loads(log2)
             except Exception:
                 same = True
             if not same:
                 fs.append({'prop': 'C08', 'oracle': 'timing-dependence',
                            'key': 'timing-dependence', 'msg': 'log differs between schedules',
-                           'plan': plan, 'outcome': run.outcome, 'digest': run.digest,
-                           'blocked': []})
-            session.cleanup(run2)
-        summary = {'outcome': run.outcome, 'digest': run.digest, 'decisions': run.sim.decisions}
-        session.cleanup(run)
+                           'plan': plan, 'outcome': summary['outcome'],
+                           'digest': summary['digest'], 'blocked': []})
         return fs, summary
     if fam == 'S2':
         from scenarios import admission
@@ -162,8 +156,21 @@ def run_plan(plan, prop):
         return abort.run_plan(plan, prop)
     if fam == 'S4':
         from scenarios import framing
-        return framing.run_plan(plan, prop)
+        return isolate.call(framing.run_plan, plan, prop)
     raise ValueError(fam)
+
+
+def _exec_plan_s1(scn, sched, prop):
+    from scenarios import s1, session
+    from sim import parserec
+    parserec.reset()
+    run = session.run_session(scn, sched)
+    an, _ = s1.evaluate_run(run, (prop,), None)
+    fs = [s1.finding_record(f, scn, sched, run) for f in an.findings if f.prop == prop]
+    summary = {'outcome': run.outcome, 'digest': run.digest, 'decisions': run.sim.decisions}
+    log = run.log_text
+    session.cleanup(run)
+    return fs, summary, log
 
 
 def minimise_task(task):
